@@ -173,7 +173,8 @@ def classify(kb, t, r, cmap):
     if kind == "loop_decreases":
         return "T", prop, desc
     if kind in ("loop_invariant_base", "loop_invariant_step", "loop_step_unwinding"):
-        return "L", prop, desc
+        # normally a helper lemma; a target whose loop invariant IS the property statement says so
+        return getattr(t, "invariant_class", "L"), prop, desc
     if kind == "assertion":
         mm = re.match(r"\[(\w)\]", desc)
         if mm:
